@@ -11,7 +11,7 @@ from vf import core, diff, sem
 from vf.cb import render
 from vf.core import Stats, Violation
 from vf.diff import Trivial
-from vf.gen import cbgen
+from vf.gen import cbgen, full
 
 ID = "C01"
 RULE = (
@@ -150,7 +150,8 @@ def cases(draw, switches):
         classes.append("noncanonical_literal")
     if len(g.precs) >= 3:
         classes.append("three_precedence_levels")
-    return {"prog": prog, "paren_unary": "paren_unary" in switches, "_meta": {"nontrivial": nontrivial, "classes": classes, "excluded": dict(g.excluded)}}
+    return full.add_layout(draw, {"prog": prog, "paren_unary": "paren_unary" in switches,
+                                  "_meta": {"nontrivial": nontrivial, "classes": classes, "excluded": dict(g.excluded)}}, switches, key="source_override")
 
 
 def check_case(case):
@@ -175,6 +176,8 @@ def campaign(seed, n, switches=frozenset()):
 
     def body(case):
         meta = case.pop("_meta")
+        if meta.get("drawn_layout"):
+            stats.classes["drawn_layout"] += 1
         case = dict(case)
         check_case(case)
         triv = case.get("_trivial")
